@@ -174,10 +174,10 @@ type relSpec struct {
 	targetT   reflect.Type
 	ownerTab  string
 	targetTab string
-	okeys     []kf     // owner key (default: ID)
-	tkeys     []kf     // target key (default: ID)
-	fks       []kf     // fkTarget: key columns on the target (-> okeys); fkOwner: on the owner (-> tkeys)
-	jt        string   // join table, with the columns naming the owner / the target
+	okeys     []kf   // owner key (default: ID)
+	tkeys     []kf   // target key (default: ID)
+	fks       []kf   // fkTarget: key columns on the target (-> okeys); fkOwner: on the owner (-> tkeys)
+	jt        string // join table, with the columns naming the owner / the target
 	jtO, jtT  []string
 	pools     []poolSet
 	tables    []string // tables emptied per case
